@@ -8,7 +8,11 @@ Lines (fields tab-separated; `-` stands for the empty string; `who` is a transac
 Commit window of the cache layer (trace validation of the micro-step model `CacheTxn.Win`): `cstart <id>` opens the
 window, `hget <key>` is a concurrent plain reader inside it, `cunder <id>` is the underlying commit (its verdict),
 the closing `commit <id>` performs the remaining evictions and returns; `cohere <key>…` compares a cache read with
-the backend below for every key (`=` agree, `!` differ). -/
+the backend below for every key (`=` agree, `!` differ). Lock granularity (`CacheTxn.MWin`): `stripes <key> <n>…` gives
+the lock stripe of every key; `purge` empties the parent cache; `rstart <key>` is a concurrent `cache.Get` in its own
+goroutine, parked right after its backend read (`parked:<v>`, or `ret:<v>` on an LRU hit); `cwait <id>` asks whether
+`Commit` has returned (`ret:<verdict>`) or is blocked on a stripe write lock (`blocked`); `rrelease` lets the parked
+reader add and return. -/
 namespace Driver.InmemTxn
 open Obao Obao.SerialTxn Obao.InmemTxn Obao.CacheTxn
 
@@ -49,7 +53,58 @@ def parseEvent : List String → Option Event
 structure St where
   cached : Bool
   sys : CSys
-  win : Option Win := none
+  win : Option MWin := none
+  stripes : List (String × Nat) := []     -- lock stripe of every key of the case (`stripes` line)
+
+def stripeFn (tbl : List (String × Nat)) (k : String) : Nat :=
+  match tbl.lookup k with
+  | some n => n
+  | none => 0        -- unreachable: the driver refuses keys that are not in the table
+
+def parseStripes : List String → Option (List (String × Nat))
+  | [] => some []
+  | k :: n :: r => do
+    let n ← n.toNat?
+    let rest ← parseStripes r
+    pure ((unq k, n) :: rest)
+  | _ => none
+
+/-- advance reader `i` by at most `fuel` micro-steps, stopping when it is parked after the backend read (if
+    `parkAtFetched`), finished, or blocked -/
+def runReader (stripe : String → Nat) (parkAtFetched : Bool) : Nat → MWin → Nat → MWin
+  | 0, m, _ => m
+  | fuel + 1, m, i =>
+    match m.readers[i]? with
+    | none => m
+    | some r =>
+      match r.pc with
+      | .done _ => m
+      | .fetched _ => if parkAtFetched then m else runReader stripe parkAtFetched fuel (m.step stripe (.reader i)) i
+      | _ =>
+        let m' := m.step stripe (.reader i)
+        if m'.readers[i]? == some r then m        -- blocked
+        else runReader stripe parkAtFetched fuel m' i
+
+def showReader (m : MWin) (i : Nat) : String :=
+  match m.readers[i]? with
+  | some { pc := .done e, .. } => "ret:" ++ showVal e
+  | some { pc := .fetched e, .. } => "parked:" ++ showVal e
+  | some _ => "blocked"
+  | none => "bad-op"
+
+/-- let the committing goroutine run until it has returned or is blocked -/
+def runCommit (stripe : String → Nat) : Nat → MWin → MWin
+  | 0, m => m
+  | fuel + 1, m =>
+    if m.w.phase = .done ∧ m.lock = .free then m else
+    let m' := m.commitStep stripe
+    if m'.w.phase = m.w.phase ∧ m'.lock = m.lock then m   -- blocked on a write lock
+    else runCommit stripe fuel m'
+
+def commitFuel (m : MWin) : Nat :=
+  match m.w.phase with
+  | .invalidating p => 3 * p.length + 4
+  | _ => 8 + 3 * ((m.w.sys.ctxns.lookup m.w.id).map (·.modified.length)).getD 0 + 4
 
 def step (s : St) (fs : List String) : St × String :=
   match fs with
@@ -68,25 +123,73 @@ def step (s : St) (fs : List String) : St × String :=
           | none => (s, "bad-op")
         else go s r (showVal (sget s.sys.inner.parent (unq k)) :: acc)
     go s ks []
+  | "stripes" :: rest =>
+    match parseStripes rest with
+    | some tbl => ({ s with stripes := tbl }, "ok")
+    | none => (s, "bad-op")
+  | ["purge"] =>
+    if s.cached && s.win.isNone then ({ s with sys := { s.sys with lru := [] } }, "ok") else (s, "bad-op")
   | ["cstart", id] =>
     match s.cached, s.win, id.toNat? with
     | true, none, some i =>
-      match Win.start s.sys i with
-      | some w => ({ s with win := some w }, "ok")
+      match MWin.start s.sys i true with
+      | some m =>
+        -- every key the eviction will lock must have a known stripe
+        if ((s.sys.ctxns.lookup i).map (·.modified)).getD [] |>.all (fun k => (s.stripes.lookup k).isSome) then
+          ({ s with win := some m }, "ok")
+        else (s, "bad-op")
       | none => (s, "bad-op")
     | _, _, _ => (s, "bad-op")
   | ["hget", k] =>
+    -- a whole concurrent `cache.Get` at a hook point inside the committing goroutine: never blocked there
     match s.win with
-    | some w => let (w', r) := w.reader (unq k); ({ s with win := some w' }, showRes r)
+    | some m =>
+      if (s.stripes.lookup (unq k)).isNone then (s, "bad-op") else
+      let i := m.readers.length
+      let m' := runReader (stripeFn s.stripes) false 8 (m.step (stripeFn s.stripes) (.spawn (unq k))) i
+      match m'.readers[i]? with
+      | some { pc := .done e, .. } => ({ s with win := some m' }, showVal e)
+      | _ => (s, "bad-op")
+    | none => (s, "bad-op")
+  | ["rstart", k] =>
+    -- a concurrent `cache.Get` in its own goroutine; the hook below the cache parks it right after the backend read
+    match s.win with
+    | some m =>
+      if (s.stripes.lookup (unq k)).isNone then (s, "bad-op") else
+      let i := m.readers.length
+      let m' := runReader (stripeFn s.stripes) true 8 (m.step (stripeFn s.stripes) (.spawn (unq k))) i
+      ({ s with win := some m' }, showReader m' i)
+    | none => (s, "bad-op")
+  | ["rrelease"] =>
+    -- the parked reader (the last one spawned) is released: `lru.Add`, unlock, return
+    match s.win with
+    | some m =>
+      match m.readers.length with
+      | 0 => (s, "bad-op")
+      | n + 1 =>
+        match m.readers[n]? with
+        | some { pc := .fetched _, .. } =>
+          let m' := runReader (stripeFn s.stripes) false 8 m n
+          ({ s with win := some m' }, showReader m' n)
+        | _ => (s, "bad-op")
     | none => (s, "bad-op")
   | ["cunder", id] =>
     match s.win, id.toNat? with
-    | some w, some i =>
-      if w.id = i ∧ w.phase = .before then
-        let w' := w.tick
-        match w'.phase with
+    | some m, some i =>
+      if m.w.id = i ∧ m.w.phase = .before then
+        let m' := m.commitStep (stripeFn s.stripes)
+        match m'.w.phase with
         | .before => (s, "bad-op")
-        | _ => ({ s with win := some w' }, showRes w'.res)
+        | _ => ({ s with win := some m' }, showRes m'.w.res)
+      else (s, "bad-op")
+    | _, _ => (s, "bad-op")
+  | ["cwait", id] =>
+    -- has `Commit` returned? it runs as far as the locks let it
+    match s.win, id.toNat? with
+    | some m, some i =>
+      if m.w.id = i then
+        let m' := runCommit (stripeFn s.stripes) (commitFuel m) m
+        ({ s with win := some m' }, if m'.w.phase = .done ∧ m'.lock = .free then "ret:" ++ showRes m'.w.res else "blocked")
       else (s, "bad-op")
     | _, _ => (s, "bad-op")
   | "cohere" :: ks =>
@@ -104,10 +207,11 @@ def step (s : St) (fs : List String) : St × String :=
     | none => (s, "bad-op")
     | some e =>
       match s.win, e with
-      | some w, .commit i =>
-        if w.id = i then
-          let w' := w.finish
-          ({ s with sys := w'.sys, win := none }, showRes w'.res)
+      | some m, .commit i =>
+        if m.w.id = i then
+          let m' := runCommit (stripeFn s.stripes) (commitFuel m) m
+          if m'.quiescent then ({ s with sys := m'.w.sys, win := none }, showRes m'.w.res)
+          else (s, "bad-op")        -- `Commit` cannot have returned yet, or a reader is still inside
         else (s, "bad-op")
       | some _, _ => (s, "bad-op")     -- nothing but readers runs inside a commit window
       | none, _ =>
